@@ -22,8 +22,9 @@ def _zombie_or_gone(pid):
 class GateRun:
     """One execution of a gate scenario under a given plan (list of event sets)."""
 
-    def __init__(self, k, slots, nested=False, log=False, fail=(), argv=None):
+    def __init__(self, k, slots, nested=False, log=False, fail=(), argv=None, steal=False):
         self.k, self.slots, self.nested, self.log, self.fail = k, slots, nested, log, set(fail)
+        self.steal = steal
         self.top = common.new_dir('gate')
         self.trace = os.path.join(self.top, '.rv-trace')
         self.argv = argv
@@ -43,6 +44,9 @@ class GateRun:
     def close(self):
         common.rmtree(self.top)
 
+    def _count_delays(self):
+        return (common.read_file(self.trace) or b'').count(b' delay before_token_read ')
+
     def run(self, plan, timeout=25.0):
         """Returns dict(rc, tokens_back, steps=[(avail, delivered)], woke=[...], out, status)."""
         top = self.top
@@ -60,6 +64,8 @@ class GateRun:
                             MAKEFLAGS=' -j --jobserver-auth=%d,%d --jobserver-fds=%d,%d' % (R, W, R, W)))
         if not self.log:
             env['REDO_LOG'] = '0'
+        if self.steal:
+            env['REDO_VERIF_DELAY'] = 'before_token_read=60'
         if self.nested:
             env['RV_GATE_REQ'], env['RV_GATE_ACK'] = gate['REQ'], gate['ACK']
             argv = ['redo-ifchange', 'top']
@@ -96,6 +102,8 @@ class GateRun:
                 m = re.search(r'timer_ms=(-?\d+)', line)
                 timer = int(m.group(1)) if m else -1
                 avail = sorted(['x' + n[1:] for n in running]) + (['tok'] if want and held > 0 else []) + (['timer'] if timer >= 0 else [])
+                if self.steal and want and held > 0:
+                    avail.append('steal')
                 if step < len(plan):
                     ev = set(plan[step])
                 else:
@@ -104,8 +112,16 @@ class GateRun:
                         ev = {'timer'}
                 step += 1
                 done = []
+                post_steal = False
                 for e in sorted(ev):
-                    if e == 'tok':
+                    if e == 'steal':
+                        # a token arrives, is seen readable, and another process takes it first
+                        if held > 0 and want and 'tok' not in ev:
+                            self._delays_before = self._count_delays()
+                            os.write(W, b't')
+                            post_steal = True
+                            done.append('steal')
+                    elif e == 'tok':
                         if held > 0 and want:
                             os.write(W, b't')
                             held -= 1
@@ -146,6 +162,14 @@ class GateRun:
                     os.write(fd, b'g')
                     os.close(fd)
                     break
+                if post_steal:
+                    tz = time.time()
+                    while p.poll() is None and time.time() - tz < 3 and self._count_delays() <= self._delays_before:
+                        time.sleep(0.002)
+                    if select.select([R], [], [], 0)[0]:
+                        os.read(R, 1)      # stolen: the token stays with the harness
+                    else:
+                        held -= 1          # the process got there first after all
         if status != 'exit':
             common.kill_session(p.pid)
         try:
@@ -176,5 +200,7 @@ def subsets(avail):
         for c in itertools.combinations(items, r):
             if 'timer' in c and len(c) > 1:
                 continue     # a timer expiry together with I/O is just the I/O wake-up arriving late
+            if 'steal' in c and 'tok' in c:
+                continue
             out.append(list(c))
     return out
